@@ -1,12 +1,11 @@
-INIT GInit
-NEXT GNext
-CHECK_DEADLOCK FALSE
+INIT Init
+NEXT Next
 CONSTANTS
- Confs <- GenDeclConfs
+ Confs <- BadDigConfs
  MaxPartial = 0
  MaxFaults = 0
  DefChunk = 2
  ChunkLimit = 6
  RetryLimit = 10
  HttpRetries = 5
-INVARIANTS Emit
+INVARIANTS O2Strict
